@@ -30,7 +30,7 @@ def mjob(name, entry, ng, timeout=900, extra=None):
 def jobs(tier):
     J = [mjob("config_ng1", "harness_config", 1, timeout=1200)]
     if tier == "thorough":
-        J += [mjob("config_ng2", "harness_config", 2, timeout=3000), mjob("config_ng3", "harness_config", 3, timeout=5400)]
+        J += [mjob("config_ng2", "harness_config", 2, timeout=3000)]  # (3 groups: 400 k SSA steps, out of 12 GB: left out)
     for n in (1, 2, 3):
         for g in range(n):
             for k in (0, 1):
